@@ -72,8 +72,10 @@ class G:
 
     def cost(self):
         comps = []
-        k = self.r.randrange(8)
-        if k == 0:
+        k = self.r.randrange(9)
+        if k == 8:
+            comps.append(self.num() + ' # ' + self.pick(CURRENCIES))
+        elif k == 0:
             pass
         elif k == 1:
             comps.append(self.num())
